@@ -35,6 +35,12 @@ CHECKS = {
  "C17": ("exploration", "exhaustive enumeration of a finite table (the degenerate case of generated-input search): every public constant x configuration, each literal compared with a value recomputed from the modulus by the big-integer model or with its defining equation; reference arkworks crates as second opinion",
          "The domain (about 135 rows: ~60 constants x 2 configurations plus trait views and pairing-curve configs) is finite and enumerated completely on every run (exhaustive: true).",
          "Moduli derived from the BLS parameter; generator test complete only for Fq (full factorisation of q-1), necessary conditions + documented value for Fr/Fp.", "5/C17"),
+ "C09": ("exploration", "property-based testing (proptest): (num, den) pairs whose ratio has a structurally chosen 2-primary component (every digit of every table window on e and -e, roots of unity of every order 2^k) vs. the four-case contract evaluated with Euler's criterion in BigUint; Field::sqrt/legendre on constructed squares and non-squares",
+         "Generated-input search; the evidence carries a window x digit coverage matrix (all 1408 cells required) and the count of 2-power orders seen (all 48 required).",
+         "Trusts BigUint modular exponentiation; covers the whole table space, not the whole input space.", "5/C09"),
+ "C11": ("exploration", "property-based testing (proptest): byte strings of every length 0..=200 in both endiannesses, integers around the modulus offered to every checked parser, element pairs through every serialisation / conversion / ordering / hashing path, flag round trips; integer oracle in BigUint",
+         "Generated-input search on 3 fields x 2 backends (1.5M cases quick); class histogram per (backend, field, kind) with required classes.",
+         "Display(0) may be empty; FromStr compared only on canonical numerals; stream deserialisers may use any error kind.", "5/C11"),
 }
 PENDING = {}
 
